@@ -46,7 +46,7 @@ class AstGen:
         r = self.r
         c = r.random()
         if c < 0.25:
-            return F.int_to_bytes(r.choice([0, 1, -1, 127, 128, -128, -129, 255, 256, 65535, 2**31, -2**40, r.randint(-70000, 70000)]))
+            return F.int_to_bytes(r.choice([0, 1, -1, 127, 128, -128, -129, 255, 256, 65535, 2**31, -2**40, 2**53 + 1, -(2**53 + 1), 2**62 + 1, 10**20 + 1, r.getrandbits(63) | 1, r.randint(-70000, 70000)]))
         if c < 0.4:
             return r.choice([b'abc', b'hello world', b'a b', b'x', b'q"z', b'\xc3\xa9', 'héllo'.encode(), 'ключ'.encode(), '日本'.encode(), 'naïve ü'.encode()])
         n = r.randint(lo, hi)
@@ -578,6 +578,45 @@ def c11_task(task):
                 stats['builder-source:differ'] += 1
                 if len(dis) < 5:
                     dis.append(dict(stream='compile_text of the source text of %s vs its bytes' % nm, source=sc.src[:300], model=m[1][:200], impl=want[:200]))
+    # PUSH of a value at every size boundary, in every way a source can supply the value: the documented encoding, or (0 and 65536
+    # bytes, which no PUSH form can carry) a rejection -- never other bytes
+    for L in (0, 1, 2, 255, 256, 257, 65535, 65536):
+        v = bytes(rng.getrandbits(8) | 1 for _ in range(L))
+        hx = v.hex()
+        if L == 0: want = None
+        elif L == 1: want = bytes([code('PUSH0')]) + v
+        elif L < 256: want = bytes([code('PUSH1'), L]) + v
+        elif L < 65536: want = bytes([code('PUSH2')]) + L.to_bytes(2, 'big') + v
+        else: want = None
+        forms = ['push x%s true' % hx, 'PUSH x%s true' % hx, 'OP_PUSH x%s true' % hx, 'op_push x%s true' % hx,
+                 '@= v [ x%s ] true' % hx, '!= m [ a ] { push a } !m [ x%s ] true' % hx]
+        if L == 0:
+            forms += ['push ~ { } true', 'push x', 'true push x', 'if { push x } true', 'def 0 { push x } true']
+        elif L <= 300:
+            forms += ['if { push x%s } true' % hx, 'push ~ { push x%s } true' % ('ab' * L) ]
+        for src in forms:
+            stats['push-boundary'] += 1
+            try:
+                got, outc = P.compile_script(src), 'ok'
+            except BaseException as e:
+                got, outc = None, type(e).__name__
+            if 'push ~ { push' in src or src.startswith(('if', 'def', 'true')) or src == 'push x':
+                pass                                    # compared with the model only
+            elif want is None and got is not None:
+                stats['direct-fail'] += 1
+                if len(viol) < 8:
+                    viol.append(dict(what='PUSH of a %d-byte value cannot be encoded and must be rejected; it was assembled' % L, source=src[:100], got=got.hex()[:100]))
+            elif want is not None and got is not None and got != want + bytes([code('TRUE')]) and not src.startswith('@='):
+                stats['direct-fail'] += 1
+                if len(viol) < 8:
+                    viol.append(dict(what='PUSH of a %d-byte value does not compile to the documented encoding' % L, source=src[:100],
+                                     expected=(want + bytes([code('TRUE')])).hex()[:100], got=got.hex()[:100]))
+            if L < 1000:
+                src_model(src, got, outc, 'push-boundary')
+            elif want is not None and got is None and not src.startswith(('@=', '!=')):
+                stats['direct-fail'] += 1
+                if len(viol) < 8:
+                    viol.append(dict(what='PUSH of a %d-byte value is rejected (%s); the documented encoding exists' % (L, outc), source=src[:100]))
     # sources that cannot be encoded must be rejected, not silently mis-assembled
     for src in MALFORMED:
         stats['malformed'] += 1
